@@ -232,8 +232,13 @@ class LGANM:
             variances[targets] = do_interventions[:, 2]
             W[:, targets] = 0
 
-        # Sampling by building the joint distribution
-        A = np.linalg.inv(np.eye(self.p) - W.T)
+        # Sampling by building the joint distribution. A = (I - W^T)^-1
+        # is built by forward substitution along a topological
+        # ordering (exact for a DAG; a general-purpose inverse loses
+        # accuracy or fails for large weights)
+        A = np.eye(self.p)
+        for j in utils.topological_ordering(W):
+            A[j, :] += W[:, j] @ A
         mean = A @ means
         covariance = A @ np.diag(variances) @ A.T
         distribution = NormalDistribution(mean, covariance)
